@@ -10,7 +10,7 @@
    Tree index arithmetic and UTF-16 units: decided by the reference-model
    engines c07/c07tree (no theorem). *)
 From Coq Require Import List.
-From YV Require Import Crdt.ElemRHT Proofs.ERHTProofs Crdt.TextRGA Proofs.TextProofs Proofs.TextSplice.
+From YV Require Import Crdt.ElemRHT Proofs.ERHTProofs Crdt.RGAList Crdt.ArrayKeys Proofs.ArrayWitness Crdt.TextRGA Proofs.TextProofs Proofs.TextSplice.
 
 Theorem C07_counter_wrap : forall (is_long : bool) c ds,
   let bits := if is_long then 64 else 32 in
@@ -39,3 +39,13 @@ Theorem C07_text_ids_stay_distinct : forall pf pt vals t v l l',
   edit pf pt vals t v l = Some l' -> ids_distinct l'.
 Proof. exact edit_ids_distinct. Qed.
 Print Assumptions C07_text_ids_stay_distinct.
+
+(* finding P13 on both array models (and, replayed by the rga engine on every run, on the real
+   crdt.Array and through Document.Update): Set on an element that was moved lands at the
+   element's old slot; [20; 10] with index 1 set to 99 shows [99; 20], a splice would show [20; 99] *)
+Theorem C07_array_set_after_move_refuted :
+  option_map a_visible p13_moved = Some (20 :: 10 :: nil)%Z /\
+  option_map a_visible p13_set = Some (99 :: 20 :: nil)%Z /\
+  option_map RGAList.visible p13_slots = Some (99 :: 20 :: nil)%Z.
+Proof. exact set_after_move_lands_at_the_old_slot. Qed.
+Print Assumptions C07_array_set_after_move_refuted.
